@@ -144,6 +144,10 @@ def cli_sample(bins, pid, tier, seed):
                                                                      "edges": sorted(edges)}, "via": "render"})
             else:
                 a_recs.append({"ev": "edges", "config": cfg, "out": {"ok": False, "err": fx.err_type(r)[0] or "other", "nodes": [], "edges": []}, "via": "render"})
+            # a render that cannot write anything must not report success
+            r = fx.monorail(["target", "render", "-f", "/dev/full"])
+            if r["rc"] == 0:
+                a_recs.append({"ev": "edges", "config": cfg, "out": {"ok": True, "nodes": [], "edges": []}, "via": "render_to_dev_full"})
             # run: all targets, and -t X --deps for one target
             for mode, named in (("all", []), ("targets_deps", [rng.choice(ts)["path"]])):
                 fx.reset_helper()
@@ -217,8 +221,21 @@ def run(pid, tier):
                                 "--count", "600" if tier == "quick" else "20000"])
             evals += st["evaluations"]
             records += read_records(os.path.join(tmp, "dagrnd.ndjson"))
+            # hundreds of nodes with high fan-in (parallel or size-dependent code paths), judged through a certificate
+            st = vinproc(bins, ["dagbig", "--out", os.path.join(tmp, "dagbig.ndjson"), "--seed", str(chk.seed),
+                                "--count", "4" if tier == "quick" else "24"])
+            evals += st["evaluations"]
+            big_records = read_records(os.path.join(tmp, "dagbig.ndjson"))
             if tier == "thorough":
                 mc_dag(chk, 5, emit=False)
+        if pid in ("C03", "C09"):
+            bf, st3, tr3 = vlib.judge("JudgeA", big_records, shards=min(4, max(1, len(big_records))), xmx="6g")
+            chk.cov["states"] += st3
+            chk.cov["transitions"] += tr3
+            chk.cov["large_graph_records"] = len(big_records)
+            big_fails = bf
+        else:
+            big_fails = []
         # ---- the same through the real CLI (target render / analyze / target show / run)
         run_fails = []
         if pid in ("C03", "C09", "C10"):
@@ -258,6 +275,9 @@ def run(pid, tier):
                 chk.violation(why, why, rec)
         for rec, why in run_fails:
             chk.violation(why, "%s [%s]" % (why, rec.get("label")), rec)
+        for rec, why in big_fails:
+            if wanted is None or why in wanted:
+                chk.violation(why, "%s [graph of %d nodes]" % (why, len(rec["adj"])), {"ev": "dag_big", "nodes": len(rec["adj"]), "out": rec["out"] if not rec["out"]["ok"] else "(groups omitted)"})
         for r in records:
             if nontrivial(pid, r):
                 chk.sample(trim(r), limit=3)
